@@ -366,3 +366,48 @@ Proof.
     + left. rewrite nth_setp by lia. cbn [Nat.eqb]. exact H7.
 Qed.
 End PathTheorem.
+
+(* ---------------------------------------------------------------------------------- *)
+(* the authority part of a parse: scheme, "//", credentials, host                      *)
+(* ---------------------------------------------------------------------------------- *)
+
+Definition empty_repr : repr := mk_repr [] [0;0;0;0;0;0;0;0;0;0;0] 269 0.
+Definition empty_sst : sst := init_sst empty_repr false.
+
+(* what the parser does for "scheme://[user[:password]@]host" *)
+Definition auth_ops (sc us pw h : str) (ht : N) : list sop :=
+  [OStartScheme; OAppend sc; OSaveScheme] ++
+  (match us, pw with
+   | [], [] => []
+   | _, [] => [OStartPart P_USERNAME; OAppend us; OSavePart]
+   | _, _ => [OStartPart P_USERNAME; OAppend us; OSavePart; OStartPart P_PASSWORD; OAppend pw; OSavePart]
+   end) ++
+  [OHostStart; OAppend h; OHostDone ht].
+
+Definition auth_pieces (sc us pw h : str) : list str :=
+  let cred := match us, pw with [], [] => false | _, _ => true end in
+  [sc; [58; 47; 47]; us; (match pw with [] => [] | _ => 58 :: pw end); (if cred then [64] else []); h; []; []; []; []; []].
+
+Lemma leb0 x : (0 <=? x) = true.
+Proof. apply N.leb_le. lia. Qed.
+
+Theorem ser_authority sc us pw h ht :
+  let s1 := run false empty_sst (auth_ops sc us pw h ht) in
+  s_r s1 = conc (auth_pieces sc us pw h) 6 (host_flags 269 ht) 0 /\ s_last s1 = P_HOST /\ s_file s1 = is_file_str sc.
+Proof.
+  cbv zeta. unfold auth_ops, auth_pieces.
+  destruct us as [|u0 us']; destruct pw as [|p0 pw'];
+    cbn [app run fold_left step];
+    unfold v_start_scheme, v_save_scheme, v_start_part, v_save_part, do_host_done, do_append, empty_sst, init_sst, empty_repr;
+    cbv beta iota zeta delta [w_r w_last w_strp w_pse w_use w_curr w_tgt w_file w_norm w_ends w_flags w_segs
+      s_r s_file s_last s_use s_strp s_pse s_curr s_tgt r_norm r_ends r_flags r_segs
+      ser_start_part ser_save_part set_e app_norm upd fill_range fill_from en E nth v_save_part v_start_part do_host_done do_append
+      P_SCHEME P_SCHEME_SEP P_USERNAME P_PASSWORD P_HOST_START P_HOST P_PORT P_PATH_PREFIX P_PATH P_QUERY P_FRAGMENT
+      Nat.eqb Nat.leb Nat.ltb andb orb negb set_host_type r_is_empty kstart part_view substr];
+    rewrite ?leb0; cbn [negb app];
+    (split; [|split; [reflexivity|]]).
+  all: try (cbn [N.to_nat skipn firstn]; rewrite to_nat_len, firstn_all; reflexivity).
+  all: unfold conc, ends_of, host_flags; cbn [concat app scan_ends firstn repeat length Nat.sub]; f_equal.
+  all: try (rewrite ?app_nil_r, <- ?app_assoc; cbn [app]; reflexivity).
+  all: repeat rewrite len_app; repeat rewrite len_cons; rewrite ?len_nil; repeat (f_equal; try lia).
+Qed.
